@@ -198,6 +198,25 @@ def upload_buffer_oracle(obs):
                 x = [x for x in obs.xfers if x.label == e['label']][0]
                 if e['op'] == 'UploadPart' or x.spec.get('src') == 'nonseekable':
                     cur -= size_of[e['call_id']]
+    # over the WHOLE run (also after a failure or cancel, while the submission thread keeps reading): every request-stage task that
+    # carries a body held in memory (UploadPartTask of stream uploads, PutObjectTask of non-seekable ones) occupies one of the
+    # max_in_memory_upload_chunks slots from the moment it is handed to the stage until it has finished
+    mem_tids = {}
+    for x in obs.xfers:
+        if x.label in stream_labels:
+            mem_tids[x.idx] = ('UploadPartTask', 'PutObjectTask') if x.spec.get('src') == 'nonseekable' else ('UploadPartTask',)
+    out_now = 0
+    stats['max_in_memory_body_tasks'] = 0
+    flagged = False
+    for e in obs.events:
+        if e['kind'] in ('exec.submit', 'exec.finish') and e.get('stage_of') == 'request' and e.get('task') in mem_tids.get(e.get('tid'), ()):
+            out_now += 1 if e['kind'] == 'exec.submit' else -1
+            stats['max_in_memory_body_tasks'] = max(stats['max_in_memory_body_tasks'], out_now)
+            if out_now > cfg.max_in_memory_upload_chunks and not flagged:
+                flagged = True
+                viol.append(V(f'{out_now} request-stage tasks holding an in-memory upload body are queued or running at once; '
+                              f'max_in_memory_upload_chunks={cfg.max_in_memory_upload_chunks}', sym='in-memory-body-tasks-overrun',
+                              after_trouble=e['n'] > first_trouble))
     stats['max_upload_bound_pct'] = int(100 * stats['max_buffered_upload_bytes'] / bound) if bound else 0
     if stats['max_buffered_upload_bytes'] > bound:
         viol.append(V(f'{stats["max_buffered_upload_bytes"]} bytes read from user streams were buffered awaiting upload; documented bound '
